@@ -373,15 +373,16 @@ COMPONENT_COMMENT_REGEX = re.compile(rb"<!--\s+_RENDERED\s+(?P<data>[^\s>]+?)\s+
 SCRIPT_NAME_REGEX = re.compile(
     rb"^(?P<comp_cls_hash>[^\s,>]+?),(?P<id>[\w]+?),(?P<js>[0-9a-f]*?),(?P<css>[0-9a-f]*?)$"
 )
-# E.g. `data-djc-id-a1b2c3`
-MAYBE_COMP_ID = r'(?: data-djc-id-\w{6}="")*'
-# E.g. `data-djc-css-99914b`
-MAYBE_COMP_CSS_ID = r'(?: data-djc-css-\w{6}="")?'
+# E.g. ` data-djc-id-a1b2c3=""` or ` data-djc-css-99914b=""`.
+# NOTE: A placeholder that is a root element of one or more components carries one `data-djc-id-...` attribute per
+# component, and a `data-djc-css-...` attribute for a component with CSS variables. The attributes are written
+# in the order in which the components set them (ids of the outer components, own id, own css), so any order is accepted.
+MAYBE_COMP_ATTRS = r'(?: data-djc-(?:id|css)-\w{6}="")*'
 
 PLACEHOLDER_REGEX = re.compile(
     r"{css_placeholder}|{js_placeholder}".format(
-        css_placeholder=f'<link name="{CSS_PLACEHOLDER_NAME}"{MAYBE_COMP_CSS_ID}{MAYBE_COMP_ID}/?>',
-        js_placeholder=f'<script name="{JS_PLACEHOLDER_NAME}"{MAYBE_COMP_CSS_ID}{MAYBE_COMP_ID}></script>',
+        css_placeholder=f'<link name="{CSS_PLACEHOLDER_NAME}"{MAYBE_COMP_ATTRS}/?>',
+        js_placeholder=f'<script name="{JS_PLACEHOLDER_NAME}"{MAYBE_COMP_ATTRS}></script>',
     ).encode()
 )
 
